@@ -246,3 +246,8 @@ def n_hash_tags(L: "List[HedTag]", n: "Int") -> "Int":
 def join_off(sep, parts, j):
     """smt-builtin: start of part j inside sep.join(parts)"""
     return sum(len(p) + len(sep) for p in parts[:j])
+
+
+def no_keys(m):
+    """smt-builtin: the map has no key at all"""
+    return len(m) == 0
